@@ -4,7 +4,7 @@ open Wire
 (* lex <src-hex> <decisions: string of 0/1, "-" for none>
      -> ok L:C:kind:valhex:had:peek ...        (what a client of lexer.Scan/ScanRegex observes)
    ghost <src-hex> <decisions>
-     -> ok start:bad:over ...                  (the model's ghost fields, same token order)
+     -> ok start ...                           (the model's ghost field tstart, same token order)
    pos <src-hex> <offset>      -> ok L:C      (the specification pos_of_offset)
    show <src-hex> <line> <col> -> ok <prefix-hex> | panic     (goawk.go showSourceLine) *)
 
@@ -17,9 +17,7 @@ let tok_str (o : obs) =
   Printf.sprintf "%s:%s:%s:%s:%s:%s" (string_of_z l) (string_of_z c) (string_of_z t.tkind)
     (hex_of_bytes t.tval) (string_of_bool o.ohad) (string_of_z o.opeek)
 
-let ghost_str (o : obs) =
-  let t = o.otok in
-  Printf.sprintf "%s:%s:%s" (string_of_z t.tstart) (string_of_bool t.tbad) (string_of_bool t.tover)
+let ghost_str (o : obs) = string_of_z o.otok.tstart
 
 let run f src ds =
   match scan_all (bytes_of_hex src) (decisions ds) with
